@@ -370,7 +370,7 @@ Section Programs.
   (* KeySet.get_by_kid(kid) *)
   Fixpoint gbk_loop (ks : list nat) (kid : option str) : prog (res nat) :=
     match ks with
-    | [] => nop "gbk.for" (nop "gbk.raise" (Ret (Err (EJose InvalidKeyIdError))))
+    | [] => nop "gbk.for" (nop "gbk.ifstr" (nop "gbk.raise" (Ret (Err (EJose InvalidKeyIdError)))))
     | k :: r =>
         nop "gbk.for" (nop "gbk.ifkid" (pbindr (kidp k) (fun v =>
           if kid_matches v kid then nop "gbk.retkey" (Ret (Ok k)) else gbk_loop r kid)))
